@@ -18,7 +18,7 @@ RULE = ('scenario (Hypothesis): 1-3 small programs read through io.read (open st
         'source_mapping_url in {default, explicit, None}, nodes given as a single node / list / tuple / iterator / lazily produced generator (each pull is a fault point), programs whose printed form is empty, output stream encoding in {unset, utf-8, utf-16, ascii, latin-1, shift_jis} with programs whose identifiers lie outside those code pages (an inline map that cannot be encoded must fail, not be mislabelled). Streams are recording doubles. Fault points, enumerated '
         'exhaustively per scenario: the scenario is run fault-free to count every factory call, read, parser call, '
         'fragment pulled from the unparser, write and writelines; then re-run once per event with a marker exception '
-        'raised at exactly that event. Oracle: fault-free - output text == fresh printer text + trailer; trailer URL '
+        'raised at exactly that event (a third of the scenarios raise a BaseException subclass, the kind KeyboardInterrupt is; one scenario in sixteen prints a program of 150-1100 statements, whose map runs to tens of kilobytes, with a sample of its fault points; base64 payloads are decoded strictly). Oracle: fault-free - output text == fresh printer text + trailer; trailer URL '
         'resolves (against the output name) to the map stream name, or is a data: URL whose base64 payload decodes to '
         'the map; map JSON == encode of what sourcemap.write yields for the same fragments with file/sources '
         'relativised as documented; read() records the stream name as sourcepath. Every path: each factory-made '
@@ -33,12 +33,17 @@ class Marker(Exception):
     pass
 
 
+class MarkerBase(BaseException):
+    """a failure that does not derive from Exception (the kind KeyboardInterrupt / SystemExit are)"""
+
+
 class Ctl(object):
     """event counter / fault injector shared by all doubles of one run"""
 
-    def __init__(self, fault_at=None):
+    def __init__(self, fault_at=None, fault_class=Marker):
         self.n = 0
         self.fault_at = fault_at
+        self.fault_class = fault_class
         self.events = []
         self.marker = None
         self.writes_before_fault = 0
@@ -48,7 +53,7 @@ class Ctl(object):
         self.n += 1
         self.events.append(kind)
         if self.fault_at is not None and idx == self.fault_at:
-            self.marker = Marker('injected at event %d (%s)' % (idx, kind))
+            self.marker = self.fault_class('injected at event %d (%s)' % (idx, kind))
             self.writes_before_fault = sum(1 for e in self.events[:-1] if e.startswith('write'))
             raise self.marker
 
@@ -129,7 +134,7 @@ def run(sc, fault_at=None):
     from calmjs.parse import io as cio
     from calmjs.parse.parsers.es5 import parse as real_parse
     from calmjs.parse.exceptions import ECMASyntaxError
-    ctl = Ctl(fault_at)
+    ctl = Ctl(fault_at, MarkerBase if sc.get('fault_class') == 'base' else Marker)
     made = []
     passed = []
     out_name, map_name, src_names = NAMES[sc['names']]
@@ -337,7 +342,9 @@ def check_scenario(acc, opens, sc):
                     return execs, 0
                 charset, payload = trailer[len(prefix):].split(',', 1)
                 try:
-                    got_map = json.loads(base64.b64decode(payload).decode(charset))
+                    if payload.endswith('\n'):
+                        payload = payload[:-1]
+                    got_map = json.loads(base64.b64decode(payload, validate=True).decode(charset))
                 except Exception as e:
                     fail('data_url_does_not_decode', error=repr(e)[:200])
                     return execs, 0
@@ -375,7 +382,13 @@ def check_scenario(acc, opens, sc):
                 return execs, 0
     # ---- every fault point
     nontrivial = 0
-    for j in range(n_events):
+    points = range(n_events)
+    if sc.get('big'):
+        # a long program: the fault-free oracle is the point (sizes beyond any internal block); faults are sampled
+        points = sorted(set([0, 1, 2, n_events - 1, n_events - 2] + list(range(0, n_events, max(1, n_events // 12)))))
+        points = [j for j in points if 0 <= j < n_events]
+        acc.label('big_scenario')
+    for j in points:
         r = run(sc, fault_at=j)
         execs += 1
         kind = base['ctl'].events[j]
@@ -449,6 +462,17 @@ def scenario(draw):
         sc['invalid_index'] = i
         sc['programs'] = sc['programs'][:i + 1]
         sc['read_factory'] = sc['read_factory'][:i + 1]
+    if draw(st.integers(0, 2)) == 0:
+        sc['fault_class'] = 'base'
+    if sc['invalid_index'] is None and draw(st.integers(0, 15)) == 0:
+        # a long program: the serialised map runs to tens of kilobytes (block-wise writers, buffers)
+        k = draw(st.sampled_from([150, 400, 700, 1100]))
+        unit = draw(st.sampled_from(['function f%d(a, b) { return a + b * %d; }\n', 'var v%d = [%d, "s", /r/g];\n',
+                                     'o.p%d = function (x) { if (x) { return x.q(%d); } };\n']))
+        sc['programs'] = [''.join(unit % (i, i) for i in range(k))]
+        sc['read_factory'] = sc['read_factory'][:1]
+        sc['big'] = k
+        sc['map'] = draw(st.sampled_from(['same', 'same', 'separate', 'factory']))
     if draw(st.integers(0, 3)) == 0:
         sc['encoding'] = draw(st.sampled_from(['utf-8', 'utf-16', 'ascii', 'latin-1', 'shift_jis']))
         if sc['invalid_index'] is None and draw(st.booleans()):
